@@ -53,5 +53,5 @@ Proof.
   inversion Hop; inversion Himp; inversion Hv; subst.
   pose proof (data_request_no_crash s o HI H1 H5 H9) as Hc.
   cbn [run]. constructor; [exact Hc|]. rewrite (is_crash_false _ Hc).
-  destruct (step_refines s o HI H1 H5 Hc) as (HI' & _ & _). now apply IH.
+  destruct (step_refines0 s o HI H1 H5 Hc) as (HI' & _ & _). now apply IH.
 Qed.
